@@ -233,12 +233,46 @@ def run(E: Engine, rep: Report, tier: str) -> dict:
                 same = unobj(m_["Q_d"]) == unobj(l.target[1]) or m_["Q_d"] == l.target[1]
                 rep.check(same, "GUARD", f"{f.short}|default-filled-where-tested|{k[1]}", f"`[{k[1]!r}] is None` is tested on the mapping that receives the default", f"{f.short}: the default for '{k[1]}' is stored into `{sh(l.target[1], 60)}` under a test of `{sh(m_['Q_d'], 60)}[{k[1]!r}] is None` -- a value present only in the former (e.g. passed positionally) is overwritten by the default", E.where(f, l.node))
     rep.floor("GUARD", 2)
+    # ORDER: the replay calls every method that refuses a measured sequence before it replays the measurement
+    _replay_order(E, rep, des_f)
     # ARGS: the serializer reads recorded positional arguments only where they must be positional
     from .. import callargs
 
     extra = callargs.check(E, rep, callargs.default_scopes(E, ("pulser.json.abstract_repr.serializer",)), "ARGS")
     rep.floor("ARGS", 1)
     return {"recordable_calls": len(rec), "ops": ops_all, "serializer_branches": len(branches), **extra}
+
+
+def _replay_order(E: Engine, rep: Report, des_f) -> None:
+    """Methods of Sequence decorated with ``block_if_measured`` raise once ``measure`` was called: in the
+    deserializer's replay (helpers inlined, source order) none of them may follow the ``measure`` call."""
+    from .symutil import S, sh, unobj
+
+    des_f = E.fn("pulser.json.abstract_repr.deserializer.deserialize_abstract_sequence")
+    blocked = {m.name for ms in E.cls(SEQ).methods.values() for m in ms
+               if any((dotted(d) or "").split(".")[-1] == "block_if_measured" for d in m.decorators)}
+    if not blocked:
+        raise AnalysisError("C04 ORDER: no Sequence method is decorated with block_if_measured")
+    seq_calls = []
+    for l in S(E, des_f).log:
+        if l.kind != "call" or l.value[1][0] != "attr":
+            continue
+        b = unobj(l.value[1][1])
+        if b[0] == "call" and sh(b[1]).split(".")[-1] == "Sequence":
+            seq_calls.append(l)
+    names = [l.value[1][2] for l in seq_calls]
+    if "measure" not in names:
+        raise AnalysisError("C04 ORDER: the deserializer no longer replays `measure` on the rebuilt Sequence")
+    first = names.index("measure")
+    n = 0
+    for i, l in enumerate(seq_calls):
+        nm = names[i]
+        if nm not in blocked or nm == "measure":
+            continue
+        n += 1
+        rep.check(i < first, "ORDER", f"deserializer|{l.fn}|{nm}|before-measure", "replayed before the measurement (the method refuses a measured sequence)",
+                  f"deserialize_abstract_sequence replays Sequence.{nm} after Sequence.measure: {nm} is guarded by block_if_measured, so every serialized sequence that has both a measurement and this call can no longer be rebuilt (RuntimeError 'The sequence has been measured')", E.where(des_f, l.node))
+    rep.floor("ORDER", 5)
 
 
 def _manual_record_shape(E, m):
@@ -531,3 +565,35 @@ def _legacy_tables(E: Engine, rep: Report) -> None:
                             continue
                         n_cls += 1
                         rep.check(l2 is not None and nm in l2, "LEGACY-TABLE", f"SUPPORTED_MODULES|{m2}.{nm}", "class serialised by the legacy encoder is accepted by the legacy decoder", f"{nm} is encoded with module '{m2}' but SUPPORTED_MODULES['{m2}'] = {l2}", E.where(f, n))
+    rep.floor("LEGACY-TABLE", 10)
+    # classes named in "__submodule__" by the legacy encoder are accepted by validate_serialization:
+    #  (a) classes owning a classmethod wrapped by @parametrize (ParamObj._to_dict names the class),
+    #  (b) concrete subclasses of a class whose _to_dict passes _submodule=self.__class__.__name__
+    subm = P.fold_or_none(sup, sup.assigns["SUPPORTS_SUBMODULE"]) if "SUPPORTS_SUBMODULE" in sup.assigns else None
+    if subm is None:
+        raise AnalysisError("C04 LEGACY-TABLE: SUPPORTS_SUBMODULE is no longer a foldable tuple of names")
+    n_sub = 0
+    for c in P.classes.values():
+        if not c.module.name.startswith("pulser.") or c.name.startswith("_"):
+            continue
+        for ms in c.methods.values():
+            for f in ms:
+                decos = [(dotted(d) or "").split(".")[-1] for d in f.decorators]
+                if "classmethod" in decos and "parametrize" in decos:
+                    n_sub += 1
+                    rep.check(c.name in subm, "LEGACY-TABLE", f"SUPPORTS_SUBMODULE|{c.name}.{f.name}", "class of a parametrized classmethod is accepted as '__submodule__'",
+                              f"{c.name}.{f.name} is a parametrized classmethod: a call with a variable is encoded with '__submodule__': '{c.name}', which SUPPORTS_SUBMODULE = {tuple(subm)} rejects (SerializationSupportAttributeMissing in the legacy encoder)", E.where(f))
+        for f in c.methods.get("_to_dict", []):
+            for n in ast.walk(f.node):
+                if isinstance(n, ast.Call) and (dotted(n.func) or "") == "obj_to_dict":
+                    kw = next((k.value for k in n.keywords if k.arg == "_submodule"), None)
+                    if kw is not None and norm(kw) in ("self.__class__.__name__", "type(self).__name__"):
+                        for s in [c] + P.subclasses(c):
+                            own = s.methods.get("_to_dict", []) if s is not c else []
+                            if s.name.startswith("_") or s.name.startswith("Base") or any("super()._to_dict" not in ast.unparse(o.node) for o in own):
+                                continue
+                            n_sub += 1
+                            rep.check(s.name in subm, "LEGACY-TABLE", f"SUPPORTS_SUBMODULE|{s.name}._to_dict", "class naming itself as '__submodule__' is accepted",
+                                      f"{s.name}._to_dict encodes '__submodule__': '{s.name}', which SUPPORTS_SUBMODULE = {tuple(subm)} rejects", E.where(f, n))
+    if n_sub < 7:
+        raise AnalysisError(f"C04 LEGACY-TABLE: only {n_sub} '__submodule__' writers found (7 confirmed by hand)")
